@@ -72,6 +72,7 @@ type world struct {
 type paramChange struct {
 	atHeight uint32
 	params   bftsim.Params
+	onGen    map[int]bool // nil: the block at atHeight carries the change on every branch; otherwise only blocks of these generators
 }
 
 func addr(i int) []byte {
@@ -98,7 +99,7 @@ func (w *world) newBlock(parent *blk, gen int, mhg uint32, byz bool) *blk {
 		return nil
 	}
 	var ch *bftsim.Params
-	if w.change != nil && h.H == w.change.atHeight {
+	if w.change != nil && h.H == w.change.atHeight && (w.change.onGen == nil || w.change.onGen[gen]) {
 		ch = &w.change.params
 	}
 	if err := w.sim.Apply(h, ch); err != nil {
@@ -306,6 +307,18 @@ func explore(t *rapid.T, sc scenario) (conflict string, nontrivial bool, w *worl
 			if 3*f2 < W2 && f2+W2/3+1 <= tau2 && mixedQuorumsIntersectHonestly(w.weights, tau, nw, tau2, w.byz) {
 				w.change = &paramChange{atHeight: uint32(rapid.IntRange(2, 12).Draw(t, "changeAt")), params: w.params(nw, tau2, rapid.Uint64Range(W2/3+1, W2).Draw(t, "changeCert"))}
 				w.hist = append(w.hist, fmt.Sprintf("weights change to %v (threshold %d) in block %d", nw, tau2, w.change.atHeight))
+				// the change is a decision of the application executing the block: sibling blocks need not agree on it. Half of
+				// the changes happen only in the blocks of some generators, so that branches forking at or below that height
+				// run under different parameters (a view that moves between such branches must forget what it learnt on the other)
+				if rapid.Bool().Draw(t, "changeBranchDependent") {
+					w.change.onGen = map[int]bool{}
+					for i := 0; i < n; i++ {
+						if rapid.Bool().Draw(t, "changeOnGen") {
+							w.change.onGen[i] = true
+						}
+					}
+					w.hist = append(w.hist, fmt.Sprintf("  only in blocks generated by %v", w.change.onGen))
+				}
 			}
 		}
 	}
@@ -556,6 +569,9 @@ func explore(t *rapid.T, sc scenario) (conflict string, nontrivial bool, w *worl
 	}
 	if w.change != nil {
 		labels = append(labels, "weight-change")
+		if w.change.onGen != nil {
+			labels = append(labels, "weight-change-branch-dependent")
+		}
 	}
 	if len(w.blocks) > 3*w.batch {
 		labels = append(labels, "longer-than-window")
